@@ -40,7 +40,7 @@ BUDGETS = {'C06': (45, 900, 10)}
 LEVELS = {'C06': 'fault_enumeration'}
 PROBES = {'C06': ['numbered_files', 'first_record_of_file', 'compressed', 'uncompressed', 'multi_write_append', 'error_at_journal', 'error_at_archive_open',
                   'error_at_archive_write', 'error_at_archive_close', 'error_at_unlink', 'torn_error', 'short_write',
-                  'kill_points', 'kill_torn_points', 'kill_with_journal', 'restart_refused', 'real_kill_crosscheck']}
+                  'kill_points', 'kill_torn_points', 'kill_with_journal', 'restart_refused', 'real_kill_crosscheck', 'archive_name_with_glob_characters']}
 INFO = {'C06': {
     'rule': 'workload = (compression, 0..5 earlier records, record to append with block of 0..40000 bytes); per workload '
             'EVERY file operation of the append is a fault position for the I/O-error clause and every operation '
@@ -108,13 +108,17 @@ def run(tape, prop, tier):
             r.probes['numbered_files'] += 1
         params = WARCRecorderParams(compress=compress, temp_dir=tmpdir, log=False, digests=digests, cdx=False,
                                     software_string='verif-sim/1', max_size=max_size)
-        prefix = os.path.join(sandbox, 'a')
+        # the archive name is the user's choice (--warc-file): characters that mean something to glob() are legal in it
+        stem = tape.choice(('a', 'a', 'site[2024]', 'crawl*x', 'q?-[ab]'), 'warc.stem')
+        if stem != 'a':
+            r.probes['archive_name_with_glob_characters'] += 1
+        prefix = os.path.join(sandbox, stem)
         recorder = WARCRecorder(prefix, params=params)       # writes the warcinfo record
         for i in range(nprev - 1):
             rec = make_record(rng, rng.choice((0, 10, 500, 9000)), i)
             recorder.set_length_and_maybe_checksums(rec)
             recorder.write_record(rec)
-        arch_name = ('a-00000' if max_size else 'a') + ('.warc.gz' if compress else '.warc')
+        arch_name = (stem + '-00000' if max_size else stem) + ('.warc.gz' if compress else '.warc')
         arch = os.path.join(sandbox, arch_name)
         if nprev == 0:
             # the state in which the recorder writes the first record of a file (fresh archive, next --warc-max-size
@@ -234,7 +238,7 @@ def run(tape, prop, tier):
                         with open(os.path.join(d2, n2), 'wb') as fh:
                             fh.write(b2)
                     try:
-                        WARCRecorder(os.path.join(d2, 'a'), params=WARCRecorderParams(
+                        WARCRecorder(os.path.join(d2, stem), params=WARCRecorderParams(
                             compress=compress, temp_dir=tmpdir, log=False, digests=digests, cdx=False, appending=True, max_size=max_size))
                     except OSError:
                         r.probes['restart_refused'] += 1
